@@ -9,6 +9,7 @@ UNITS = {
     "calendars": {"rlimit": 30},
     "linalg": {"rlimit": 50},
     "linalg_f64": {"rlimit": 50},
+    "fx": {"rlimit": 50},
 }
 
 COMMON_ASSUMPTIONS = [
@@ -172,6 +173,19 @@ CHECKS = {
         "uncovered": [
             "the derived PartialEq of CalType (variant-wise) and of Cal (structural) are not part of the statement and not under contract",
             "Python-side wrappers (calendar_py.rs) are outside Verus' reach",
+        ],
+    },
+    "C10": {
+        "units": ["fx"],
+        "level": "proof",
+        "assumptions": CHRONO_ASSUMPTIONS + DUAL_ASSUMPTIONS + [
+            "create_fx_array (the graph fill-in, C09's core) is an ASSUMED deterministic function fx_build(currencies, quotes, order): it fails or succeeds independently of the order, returns a square matrix of the requested order, and its values do not depend on the order (axiom_fx_build); the variable names fx_<pair> and the +-cross/quote sensitivities it produces are NOT verified",
+            "derived Clone of FXRate / NumberArray2 / IndexSet<Ccy> is structural; Ccy (interned string handle) is equal exactly when the names are equal",
+            "IndexSet<Ccy> insert / get_index_of / index, Array2::from_shape_vec / into_iter, Vec::clone_from, Iterator fold / enumerate / all / any: shim contracts",
+        ],
+        "uncovered": [
+            "sensitivity clauses (variable naming fx_xxxyyy, +-cross/quote, second order): inside create_fx_array, assumed",
+            "Python wrappers (fx_py.rs)",
         ],
     },
     "C13": {
